@@ -29,6 +29,7 @@ def seeded(ids, tier="quick", seeds=("1",)):
             p = subprocess.run(["patch", "-p1", "-s", "-i", os.path.join(d, "patch.diff")], cwd=scratch, capture_output=True, text=True)
             if p.returncode != 0:
                 report.append({"id": name, "error": "patch does not apply: " + (p.stdout + p.stderr)[-300:]})
+                print(f"{name}: ERROR patch does not apply to the current tree")
                 rc_all = 2
                 continue
             env = dict(os.environ, VERIF_REPO_SRC=os.path.join(scratch, "src"), VERIF_OUT=os.path.join(scratch, "out"))
